@@ -48,6 +48,8 @@ PAREN_GROUPS = {
     '()': [],
     '(deps: &impl B0)': [('I', 'deps'), ('P', ':'), ('P', '&'), ('I', 'impl'), ('I', 'B0')],
     '(deps: &impl B0, p1: u32)': [('I', 'deps'), ('P', ':'), ('P', '&'), ('I', 'impl'), ('I', 'B0'), ('P', ','), ('I', 'p1'), ('P', ':'), ('I', 'u32')],
+    '(deps: &impl B0, #[allow(unused)] p1: u32)': [('I', 'deps'), ('P', ':'), ('P', '&'), ('I', 'impl'), ('I', 'B0'), ('P', ','),
+                                                   ('P', '#'), ('G', '[', [('I', 'allow'), ('G', '(', [('I', 'unused')])]), ('I', 'p1'), ('P', ':'), ('I', 'u32')],
     '(crate)': [('I', 'crate')],
 }
 BRACE_GROUPS = {
@@ -249,7 +251,8 @@ def sym_item_segments(key, dims='full'):
     q_async = seg(key + '.async', [[], [I_('async')]], ['', 'async'])
     q_unsafe = seg(key + '.unsafe', [[], [I_('unsafe')]], ['', 'unsafe'])
     q_abi = seg(key + '.abi', [[], [I_('extern')], [I_('extern'), ('L', '"C"')]], ['', 'extern', 'extern "C"'])
-    params = seg(key + '.params', [[('G', '(', list(PAREN_GROUPS['(deps: &impl B0)']))], [('G', '(', list(PAREN_GROUPS['(deps: &impl B0, p1: u32)']))]], ['(deps)', '(deps, p1)'])
+    params = seg(key + '.params', [[('G', '(', list(PAREN_GROUPS['(deps: &impl B0)']))], [('G', '(', list(PAREN_GROUPS['(deps: &impl B0, p1: u32)']))],
+                                    [('G', '(', list(PAREN_GROUPS['(deps: &impl B0, #[allow(unused)] p1: u32)']))]], ['(deps)', '(deps, p1)', '(deps, #[allow(unused)] p1)'])
     ret = seg(key + '.ret', [[], [('P', '->'), I_('u32')]], ['', '-> u32'])
     term = seg(key + '.term', [[('G', '{', [])], [('P', ';')], [('G', '{', list(BRACE_GROUPS['{ fn inner() {} }']))]], ['{}', ';', '{ fn inner() {} }'])
     fn_item = [q_const, q_async, q_unsafe, q_abi, I_('fn'), I_(fn_name), params, ret, term]
@@ -272,8 +275,28 @@ def sym_item_segments(key, dims='full'):
         # a directly annotated fn: rustc evaluates a `cfg` placed on the item itself before the macro runs, so no cfg alternative
         attrs = seg(key + '.attrs', [[], [('P', '#'), ('G', '[', [I_('inline')])]], ['no attr', '#[inline]'])
         return [attrs, vis] + fn_item
+    if dims == 'trait-head':
+        # a directly annotated trait: what Input::parse consumes before it knows that a trait follows
+        attrs = seg(key + '.attrs', [[], [('P', '#'), ('G', '[', [I_('allow'), ('G', '(', [I_('unused')])])],
+                                     [('P', '#'), ('G', '[', [I_('allow'), ('G', '(', [I_('dead_code')])])]], ['no attr', '#[allow(unused)]', '#[allow(dead_code)]'])
+        return [attrs, vis, q_unsafe, I_('trait'), I_('Tr'), ('G', '{', [])]
     kind = seg(key + '.kind', kinds, ['fn item', 'struct', 'use', 'mod', 'impl', 'trait', 'extern block', 'macro invocation'])
     return [attrs, vis, kind]
+
+
+def layout_cells(layout):
+    """the token cells of a front-item slice layout (shared by the driver and by concretisation for replay)"""
+    cells = []
+    fixed_fn = [('I', 'pub'), ('I', 'fn'), ('I', 'g0'), ('G', '(', list(PAREN_GROUPS['(deps: &impl B0)'])), ('G', '{', [])]
+    for part in layout:
+        if part == 'FN':
+            cells += list(fixed_fn)
+        elif part == 'STRUCT':
+            cells += [('I', 'struct'), ('I', 'Y'), ('P', ';')]
+        else:
+            dims = {'r': 'reduced', 's': 'single-fn', 't': 'trait-head'}.get(part[0], 'full')
+            cells += sym_item_segments('it.' + part, dims)
+    return cells
 
 
 def tok_at(ex, pb, k=0):
@@ -300,6 +323,12 @@ def is_tok(t, name, ex=None):
         return False
     if name in ('Paren', 'Brace', 'Bracket'):
         return tk_group_delim(ex, t) == {'Paren': '(', 'Brace': '{', 'Bracket': '['}[name]
+    if name in ('LitStr', 'Lit'):
+        return tk_lit(ex, t) is not None
+    if name == 'Ident':
+        return ident_name(ex, t) is not None
+    if name not in synprint.TOKENS:
+        raise Unsupported('peek target ' + name)
     txt = synprint.TOKENS[name]
     if txt[0].isalpha() or txt == '_':
         return ident_is(ex, t, txt)
@@ -332,6 +361,15 @@ def _peek(ex, c, a):
     if name is None:
         raise Unsupported('peek target ' + c.generics)
     return is_tok(tok_at(ex, pb), name, ex)
+
+
+@model('ParseBuffer::peek2', 'ParseBuffer::peek3')
+def _peek23(ex, c, a):
+    pb = pb_of(a[0])
+    name = token_name_from_generics(c.generics)
+    if name is None:
+        raise Unsupported('peek target ' + c.generics)
+    return is_tok(tok_at(ex, pb, 1 if c.method == 'peek2' else 2), name, ex)
 
 
 @model('ParseBuffer::is_empty')
@@ -865,6 +903,10 @@ def build_inputs(ex, content):
                 return [deps]
             if label == '(deps: &impl B0, p1: u32)':
                 return [deps, A.fn_arg_typed(A.pat_ident(Ident('p1', Span(('input', 'p')), 'input')), A.type_path_ident(Ident('u32', Span(('input', 'p')), 'input')))]
+            if label == '(deps: &impl B0, #[allow(unused)] p1: u32)':
+                at = A.attr_list(A.path([Ident('allow', Span(('input', 'attr')), 'input')]), [('I', 'unused', 'input')])
+                return [deps, A.fn_arg_typed(A.pat_ident(Ident('p1', Span(('input', 'p')), 'input')), A.type_path_ident(Ident('u32', Span(('input', 'p')), 'input')),
+                                             attrs=VecObj([at]))]
     return None
 
 
